@@ -36,6 +36,7 @@ fn law(ctx: &mut Ctx, name: &str, key: String, r: Result<Result<(), String>, Str
         Ok(Ok(())) => {
             ctx.count(&format!("ok.{name}"));
             ctx.distinct(&key);
+            ctx.sample(|| format!("law {name} held on case {key} (and on every other generated case counted under ok.{name})"));
         },
         Ok(Err(d)) => ctx.violation(name, || d),
         Err(p) => ctx.violation(&format!("{name}/panic/{}", panic_key(&p)), || format!("{p}; case {key}")),
